@@ -137,6 +137,13 @@ func matchRef(r string, pat *locPat, extra []int) string {
 	}
 	tail := app("rpath", r)
 	conds := []string{eq(app("rid", r), app("rid", pat.base))}
+	for _, el := range els {
+		if el.wild {
+			// the elements of a nil slice: no cell at all
+			conds = append(conds, not(eq(pat.base, nilRef)))
+			break
+		}
+	}
 	for j := len(els) - 1; j >= 0; j-- {
 		conds = append(conds, "((_ is pcons) "+tail+")")
 		hd := app("phd", tail)
